@@ -52,6 +52,7 @@ type Rec struct {
 	cond   *sync.Cond
 	seq    int
 	lines  []string // "ev"/"mark" lines without the scenario number
+	times  []time.Time // when each line was logged (timing clauses of the option sweep)
 	apis   map[int64]bool
 	counts map[string]int
 	failAt map[string]int
@@ -91,6 +92,7 @@ func (r *Rec) log(format string, args ...interface{}) {
 	}
 	r.seq++
 	r.lines = append(r.lines, fmt.Sprintf("ev %%d %d %s %s", r.seq, th, fmt.Sprintf(format, args...)))
+	r.times = append(r.times, time.Now())
 	r.cond.Broadcast()
 	r.mu.Unlock()
 }
@@ -99,6 +101,7 @@ func (r *Rec) mark(what string) {
 	r.mu.Lock()
 	r.seq++
 	r.lines = append(r.lines, fmt.Sprintf("mark %%d %d %s", r.seq, what))
+	r.times = append(r.times, time.Now())
 	r.mu.Unlock()
 }
 
@@ -166,6 +169,13 @@ type RecConn struct {
 	receiving    bool             // the client is blocked in Receive
 	rxDone       bool             // a Receive returned an error
 	asyncOkAfter bool             // an async Send on a closed connection returns nil
+
+	// what the client configured on the connection and what it sent first (judged by the option sweep, cfgsweep.go)
+	gotRL      []int64
+	gotMWD     []time.Duration
+	connectPkt *packet.Connect
+	sentOK     []string // String() of every packet whose Send returned nil
+	rcvd       []string // String() of every packet Receive returned
 }
 
 func newRecConn(rec *Rec, asyncOk bool) *RecConn {
@@ -190,10 +200,16 @@ func (c *RecConn) Send(pkt packet.Generic, async bool) error {
 		}
 	default:
 		c.outbox = append(c.outbox, pkt)
+		if cp, ok := pkt.(*packet.Connect); ok && c.connectPkt == nil {
+			c.connectPkt = cp
+		}
 		if failAfter {
 			err = errInjected
 			c.closed = true
 		}
+	}
+	if err == nil {
+		c.sentOK = append(c.sentOK, pkt.String())
 	}
 	c.rec.log("tx %s %s %s", text, hx.B01(async), okfail(err))
 	c.cnd.Broadcast()
@@ -225,6 +241,7 @@ func (c *RecConn) Receive() (packet.Generic, error) {
 	}
 	pkt := c.inbox[0]
 	c.inbox = c.inbox[1:]
+	c.rcvd = append(c.rcvd, pkt.String())
 	c.rec.log("rx %s", hx.PktText(pkt))
 	c.cnd.Broadcast()
 	c.mu.Unlock()
@@ -247,9 +264,17 @@ func (c *RecConn) Close() error {
 	return err
 }
 
-func (c *RecConn) SetReadLimit(limit int64)             {}
+func (c *RecConn) SetReadLimit(limit int64) {
+	c.mu.Lock()
+	c.gotRL = append(c.gotRL, limit)
+	c.mu.Unlock()
+}
 func (c *RecConn) SetReadTimeout(timeout time.Duration) {}
-func (c *RecConn) SetMaxWriteDelay(delay time.Duration) {}
+func (c *RecConn) SetMaxWriteDelay(delay time.Duration) {
+	c.mu.Lock()
+	c.gotMWD = append(c.gotMWD, delay)
+	c.mu.Unlock()
+}
 func (c *RecConn) LocalAddr() net.Addr                  { return nil }
 func (c *RecConn) RemoteAddr() net.Addr                 { return nil }
 
